@@ -11,7 +11,8 @@ def run(ctx):
     common.setup_impl_path()
     n = 300 if ctx.tier == 'quick' else 3000
     c01.system_check(ctx, 'C02', n, dict(allow_refusals=False, empty_bias=0.3), max_gen=4 if ctx.tier == 'quick' else 8,
-                     nops=(6, 30) if ctx.tier == 'quick' else (10, 80), label='open-edit-write history')
+                     nops=(6, 30) if ctx.tier == 'quick' else (10, 80), label='open-edit-write history',
+                     extra=c01.recipe_extras(ctx, c01.BOUNDARY, 3 if ctx.tier == 'quick' else 25, reopen=True))
     ctx.cov['rule'] = ('edit histories split into 1-4 (thorough: 1-8) generations by write+reopen at random points; every '
                        'generation edits the image the previous one wrote; final view through the API compared with the '
                        'specification of the concatenated edits; non-trivial = at least 3 edit kinds')
